@@ -438,6 +438,10 @@ def _decode_signature(P, b):
             orders.add("be")      # address from octets: network order by definition
         if n.endswith(("[T]>::first", "slice::<impl [T]>::first")):
             reads.add(0)
+        if last in ("split_at", "split_at_checked") and ("[T]" in n or "slice" in n) and len(t["args"]) == 2:
+            k = cint(t["args"][1])
+            if k is not None:
+                reads.add(k)             # the tail starts at that offset, as `&p[k..]` does
         if last == "get" and ("[T]" in n or "slice" in n) and len(t["args"]) == 2:
             k = cint(t["args"][1])
             if k is None:
@@ -458,18 +462,22 @@ def _decode_signature(P, b):
             k = cint(a_)
             if k is not None and last in ("saturating_add", "saturating_mul", "checked_add", "checked_mul", "wrapping_add", "saturating_sub"):
                 arith.add((last.split("_")[-1], k))
-    # which helper handles which switched value (`0x0800 => extract_ipv4_info`, `0x86DD => extract_ipv6_info`)
+    # which helper handles which value (`0x0800 => extract_ipv4_info` as a match arm, or `if ethertype == 0x0800 { extract_ipv4_info }`)
     dispatch = set()
-    for bi, blk in enumerate(b.blocks):
-        tt = blk["t"]
-        if tt["k"] == "switch" and tt.get("ty") not in ("bool", "isize"):
-            for (v, tgt) in tt.get("arms", []):
-                reg = Q.dominated_region(b, tgt)
-                for cb_, ct_ in b.calls():
-                    if cb_ in reg and not Q.in_tracing(ct_["span"]):
-                        nm = callee_of(ct_)
-                        if nm.startswith("huginn_net") or nm.endswith(("Packet::<'a>::new", "Packet::new")):
-                            dispatch.add((v, re.sub(r"^huginn_net(_[a-z]+)?::", "", nm)))
+    for cb_, ct_ in b.calls():
+        if Q.in_tracing(ct_["span"]):
+            continue
+        nm = callee_of(ct_)
+        if not (nm.startswith("huginn_net") or nm.endswith(("Packet::<'a>::new", "Packet::new"))):
+            continue
+        for c in Q.canon_conds(P, T.dom_conds(b, S, cb_)):
+            v = None
+            if c[0] == "int" and isinstance(c[2], int) and not isinstance(c[2], bool):
+                v = c[2]
+            elif c[0] == "cmp" and c[1] == "Eq" and c[4] is True and T.fold_int(c[3]) is not None and not T.has_call(c[2], "::len"):
+                v = T.fold_int(c[3])
+            if v is not None:
+                dispatch.add((v, re.sub(r"^huginn_net(_[a-z]+)?::", "", nm)))
     return (tuple(sorted(reads)), tuple(sorted(tests)), tuple(sorted(arith, key=str)), tuple(sorted(orders)), tuple(sorted(dispatch)))
 
 
